@@ -155,30 +155,39 @@ def d4(ctx, rep):
         and [a.id for a in rec[0].args] == [pa, pb] and isinstance(rec[0]._parent, ast.Call) and call_name(rec[0]._parent) == 'extend'
     rep.check('D4.enum', fn, rec[0] if rec else lp, good, 'recurses with (parametric, bounded) unchanged and extends the result',
               'the recursion does not pass both filters through in order / drops the sub-results', construct='recursion')
-    conts = {}
-    for i in [n for n in lp.body if isinstance(n, ast.If)]:
-        if not (len(i.body) == 1 and isinstance(i.body[0], ast.Continue)):
-            continue
-        src = ast.unparse(i.test)
-        t = i.test
-        if any(isinstance(x, ast.Name) and x.id == 'ABC' for x in ast.walk(t)) and '__bases__' in src:
-            conts['abc'] = i
-        for p, tag in ((pa, 'PARAMETRIC'), (pb, 'BOUNDED')):
-            if isinstance(t, ast.BoolOp) and isinstance(t.op, ast.And) and len(t.values) == 2:
-                a, b = t.values
-                nt = is_none_test(a)
-                cmp_ok = isinstance(b, ast.Compare) and len(b.ops) == 1 and isinstance(b.ops[0], ast.NotEq) \
-                    and {ast.unparse(b.left), ast.unparse(b.comparators[0])} == {f'{sv}.{tag}', p}
-                if nt is not None and isinstance(nt[0], ast.Name) and nt[0].id == p and nt[1] is False and cmp_ok:
-                    conts[tag] = i
-    for k, what in (('abc', 'abstract classes (ABC among the bases) are skipped'), ('PARAMETRIC', 'parametric filter: skip when given and different'),
-                    ('BOUNDED', 'bounded filter: skip when given and different')):
-        rep.check('D4.enum', fn, conts.get(k, lp), k in conts, what, f'NOT: {what}', construct=f'filter {k}')
-    app = [c for c in lp.body if isinstance(c, ast.Expr) and isinstance(c.value, ast.Call) and call_name(c.value) == 'append'
-           and c.value.args and isinstance(c.value.args[0], ast.Name) and c.value.args[0].id == sv]
-    after = bool(app) and all(lp.body.index(app[0]) > lp.body.index(c) for c in conts.values())
-    rep.check('D4.enum', fn, app[0] if app else lp, after, 'a subclass is appended only after all skips',
-              'a subclass is appended before the filters run', construct='append after filters')
+    # the condition under which a subclass is appended, as a boolean formula over the loop body
+    from ..boolcond import Conds, atoms_of, equivalent, f_and, f_not, implies, show
+    app = [c for c in ast.walk(lp) if isinstance(c, ast.Call) and call_name(c) == 'append' and c.args and isinstance(c.args[0], ast.Name)
+           and c.args[0].id == sv]
+    if len(app) != 1:
+        rep.undecided('D4.enum', fn, lp, 'append of the visited subclass not recognised', construct='candidate filter')
+    else:
+        cd = Conds(prog, fn)
+        reach = cd.reach(app[0], stmts=lp.body)
+        a_abc = f'in[ABC|{sv}.__bases__]'
+        a_pn, a_bn = f'isnone[{pa}]', f'isnone[{pb}]'
+        a_pe = 'eq[' + '|'.join(sorted([pa, f'{sv}.PARAMETRIC'])) + ']'
+        a_be = 'eq[' + '|'.join(sorted([pb, f'{sv}.BOUNDED'])) + ']'
+        A = lambda k: ('atom', k)
+        want = f_and(f_not(A(a_abc)), f_not(f_and(f_not(A(a_pn)), f_not(A(a_pe)))), f_not(f_and(f_not(A(a_bn)), f_not(A(a_be)))))
+        keys = set(atoms_of(reach)) if reach is not None else None
+        if reach is None or keys - {a_abc, a_pn, a_bn, a_pe, a_be}:
+            rep.undecided('D4.enum', fn, app[0], f'filter condition not recognised ({show(reach)[:150] if reach is not None else None})', construct='candidate filter')
+        else:
+            eq = equivalent(reach, want)
+            if eq:
+                rep.ok('D4.enum', fn, app[0], 'appended iff not abstract, and (parametric is None or equal), and (bounded is None or equal)', construct='candidate filter')
+            else:
+                miss = []
+                if not implies(reach, f_not(A(a_abc))):
+                    miss.append('abstract classes (ABC among the bases) are not skipped')
+                if not implies(reach, f_not(f_and(f_not(A(a_pn)), f_not(A(a_pe))))):
+                    miss.append('the parametric filter is not honoured')
+                if not implies(reach, f_not(f_and(f_not(A(a_bn)), f_not(A(a_be))))):
+                    miss.append('the bounded filter is not honoured')
+                if not miss:
+                    miss.append('admissible subclasses are dropped')
+                rep.bad('D4.enum', fn, app[0], '; '.join(miss) + f' (append condition: {show(reach)[:160]})', construct='candidate filter')
     # tags declared by every concrete family
     root = prog.cls('copulas.univariate.base.ScipyModel')
     n = 0
